@@ -286,3 +286,38 @@ Proof.
   pose proof (pool_forall (fun s => min_cost_ok s && cost_safe s) costs_ok_true v prog pc Hop) as H.
   now apply andb_true_iff in H.
 Qed.
+
+(* ---- independent specifications of the field / opcode tables *)
+Lemma field_spec_agrees_true : field_spec_agrees = true.
+Proof. vm_compute. reflexivity. Qed.
+Lemma langspec_ops_agree_true : langspec_ops_agree = true.
+Proof. vm_compute. reflexivity. Qed.
+Lemma langspec_fields_agree_true : langspec_fields_agree = true.
+Proof. vm_compute. reflexivity. Qed.
+
+Definition field_row_ok (g : fgroup) (fs : fspec) : bool :=
+  match spec_lookup (fg_name g) (fs_name fs) with
+  | Some (_, _, enc, ver, app_only) =>
+      N.eqb enc (fs_field fs) && N.eqb ver (fs_version fs) && N.eqb (fs_modes fs) (if app_only then ModeApp else 3)
+  | None => false
+  end.
+
+Lemma field_rows_ok : forallb (fun g => forallb (field_row_ok g) (fg_fields g)) field_groups = true.
+Proof. vm_compute. reflexivity. Qed.
+
+(* every field of every run-time field group is listed in the frozen specification with the same
+   byte encoding and version, and is usable in signature mode iff the specification says so *)
+Theorem field_modes_follow_spec : forall g fs,
+    In g field_groups -> In fs (fg_fields g) ->
+    exists gg nn app_only,
+      spec_lookup (fg_name g) (fs_name fs) = Some (gg, nn, fs_field fs, fs_version fs, app_only) /\
+      fs_modes fs = (if app_only then ModeApp else 3%N).
+Proof.
+  intros g fs Hg Hfs.
+  pose proof (proj1 (forallb_forall _ _) field_rows_ok g Hg) as H1.
+  pose proof (proj1 (forallb_forall _ _) H1 fs Hfs) as H2.
+  unfold field_row_ok in H2.
+  destruct (spec_lookup (fg_name g) (fs_name fs)) as [[[[[gg nn] enc] ver] ao]|]; [|discriminate].
+  apply andb_true_iff in H2. destruct H2 as [H2 H3]. apply andb_true_iff in H2. destruct H2 as [H2 H4].
+  apply N.eqb_eq in H2, H3, H4. subst enc ver. exists gg, nn, ao. split; [reflexivity | exact H3].
+Qed.
